@@ -344,6 +344,7 @@ Section Proofs.
     intros K ew t m w h Hg Hh. unfold do_merge.
     assert (Hsame : good w /\ frel K w w) by (split; [exact Hg|apply frel_refl]).
     destruct (closed (hs h)); [exact Hsame|].
+    destruct (hmf h && existsb fstub (mine (hs h))); [exact Hsame|].
     destruct (writable (hs h)) eqn:Ew; [exact Hsame|].
     destruct (negb (valid_name t)); [exact Hsame|].
     destruct (mine (hs h)) as [|nw older] eqn:Em; [exact Hsame|].
@@ -655,7 +656,7 @@ Section Proofs.
     unfold step. destruct (here w) as [d|h] eqn:Hh.
     - pose proof Hg as [Hnd [Hno _]].
       assert (Ed : wdir w = d) by (unfold wdir; rewrite Hh; reflexivity). rewrite Ed in Hnd.
-      destruct o as [mf m t r u|u|m| |g| |c m|ew t m| |n]; try exact Hsame.
+      destruct o as [mf m t r u|u|m| |g| |c m|ew t m| |n|ew t srcn m]; try exact Hsame.
       + assert (Href : forall (e : err) d', NoDup (names d') ->
                   (forall f, In f d -> kept_by_open m t f -> In f d') ->
                   good (mkworld (PDir d') (hsides w) (other w) (osides w)) /\
@@ -680,7 +681,26 @@ Section Proofs.
         * intros f Hin Hc Hkf. rewrite Ed in Hin. unfold wdir. simpl. split; [|reflexivity].
           unfold others. apply filter_In. split; [exact Hin|]. unfold K in Hkf. simpl in Hkf. rewrite Hkf. reflexivity.
         * intros f Hin. simpl. auto.
-    - destruct o as [mf m t r u|u|m| |g| |c m|ew t m| |n]; try exact Hsame.
+      + unfold do_stub.
+        destruct (side_of srcn (hsides w)); [|exact Hsame].
+        destruct (find (fun f : cfile => fname f =? srcn) d) as [src|]; [|exact Hsame].
+        destruct (negb (valid_name t)); [exact Hsame|].
+        destruct ew.
+        * destruct (has_name (base_filename t) (other w)) eqn:Eh; [exact Hsame|]. simpl. split.
+          -- unfold good, wdir. simpl. split; [exact Hnd|]. split; [apply NoDup_names_snoc; [exact Hno|exact Eh]|exact I].
+          -- split.
+             ++ intros f Hin Hc _. rewrite Ed in Hin. unfold wdir. simpl. auto.
+             ++ intros f Hin. simpl. split; [apply in_or_app; left; exact Hin|].
+                apply side_of_set_other. intros E. apply (has_name_false _ _ Eh).
+                unfold names. rewrite <- E. apply in_map. exact Hin.
+        * destruct (has_name (base_filename t) d) eqn:Eh; [exact Hsame|]. simpl. split.
+          -- unfold good, wdir. simpl. split; [apply NoDup_names_snoc; [exact Hnd|exact Eh]|]. split; [exact Hno|exact I].
+          -- split.
+             ++ intros f Hin Hc _. rewrite Ed in Hin. unfold wdir. simpl. split; [apply in_or_app; left; exact Hin|].
+                apply side_of_set_other. intros E. apply (has_name_false _ _ Eh).
+                unfold names. rewrite <- E. apply in_map. exact Hin.
+             ++ intros f Hin. simpl. auto.
+    - destruct o as [mf m t r u|u|m| |g| |c m|ew t m| |n|ew t srcn m]; try exact Hsame.
       + unfold via. simpl. apply put_spec; [exact Hg|exact Hh|apply create_patch_hstep].
       + destruct (do_commit_spec K m w h Hg Hh) as [A [B _]]. split; assumption.
       + unfold via. simpl. apply put_spec; [exact Hg|exact Hh|apply discard_patch_hstep].
@@ -843,7 +863,7 @@ Section Proofs.
       { eapply chain_ok_head_irrelevant; [| | | |exact Hc]; reflexivity. }
       split; [exact Hc'|]. split; [constructor; [reflexivity|eapply chain_tail_committed; exact Hc]|].
       split; [rewrite Em; reflexivity|]. split; [unfold view; rewrite Em; reflexivity|].
-      intros _ nw ol E. inversion E; subst nw ol. unfold mf_check, fext. cbn [fpay set_committed set_pay set_ext snd fname].
+      intros _ nw ol E. inversion E; subst nw ol. unfold mf_check, fext. cbn [fpay set_committed set_pay set_ext snd fst option_map fname].
       rewrite side_of_set_same, N.eqb_refl. reflexivity.
     - unfold via in Hst. destruct (commit_patch (hs h)) as [s' o] eqn:Ec. simpl in Hst. inversion Hst; subst w1 o.
       destruct (commit_ok_inv _ _ Ec) as [_ [_ [_ [l [older [Em Es']]]]]]. subst s'.
@@ -1051,12 +1071,17 @@ Section Proofs.
   Proof.
     intros o w Hg Hf. unfold step. unfold ginv in Hg. destruct (here w) as [d|h] eqn:Hh.
     - assert (Ed : wdir w = d) by (unfold wdir; rewrite Hh; reflexivity).
-      destruct o as [mf m t r u|u|m| |g| |c m|ew t m| |n]; try (unfold ginv; simpl; rewrite ?Hh; exact I).
+      destruct o as [mf m t r u|u|m| |g| |c m|ew t m| |n|ew t srcn m]; try (unfold ginv; simpl; rewrite ?Hh; exact I).
       + simpl in Hf. rewrite Ed in Hf.
         destruct (open_cls_cases mf m t d (hsides w) r u) as [E|E]; rewrite E; [unfold ginv; simpl; exact I|].
         destruct (open_mode cempty m t d r u) as [s|e d'] eqn:Eo; unfold ginv; simpl; [|exact I].
         eapply open_mode_cinv; eauto.
       + destruct (valid_name n); unfold ginv; simpl; rewrite ?Hh; exact I.
+      + unfold do_stub.
+        destruct (side_of srcn (hsides w)); [|unfold ginv; simpl; rewrite Hh; exact I].
+        destruct (find (fun f : cfile => fname f =? srcn) d); [|unfold ginv; simpl; rewrite Hh; exact I].
+        destruct (negb (valid_name t)); [unfold ginv; simpl; rewrite Hh; exact I|].
+        destruct ew; destruct (has_name _ _); unfold ginv; simpl; rewrite ?Hh; exact I.
     - assert (Hsame : ginv w) by (unfold ginv; rewrite Hh; exact Hg).
       assert (Ed : wdir w = dir_of (hs h)) by (unfold wdir; rewrite Hh; reflexivity).
       assert (Hcm : forall m, ginv (fst (do_commit m w h)) /\ exists h', here (fst (do_commit m w h)) = POpen h').
@@ -1065,7 +1090,7 @@ Section Proofs.
           destruct (mine (hs h)) as [|l older] eqn:Em; simpl; [split; [exact Hsame|eauto]|].
           split; [|eauto]. unfold ginv. simpl. apply cinv_commit. apply cinv_write. exact Hg.
         - unfold via, put, ginv. simpl. split; [apply cinv_commit; exact Hg|eauto]. }
-      destruct o as [mf m t r u|u|m| |g| |c m|ew t m| |n]; try exact Hsame.
+      destruct o as [mf m t r u|u|m| |g| |c m|ew t m| |n|ew t srcn m]; try exact Hsame.
       + unfold via, put, ginv. simpl. apply cinv_create_patch; [exact Hg|].
         simpl in Hf. rewrite Ed in Hf. intros Hin. apply Hf. unfold dir_of. rewrite map_app.
         apply in_or_app. right. exact Hin.
@@ -1080,6 +1105,7 @@ Section Proofs.
         apply cinv_close_false. unfold ginv in Hg1. rewrite Hh1 in Hg1. exact Hg1.
       + unfold do_merge.
         destruct (closed (hs h)) eqn:Ecl; [exact Hsame|].
+        destruct (hmf h && existsb fstub (mine (hs h))); [exact Hsame|].
         destruct (writable (hs h)) eqn:Ewr; [exact Hsame|].
         destruct (negb (valid_name t)); [exact Hsame|].
         destruct (mine (hs h)) as [|nw older] eqn:Em; [exact Hsame|].
